@@ -280,4 +280,96 @@ def followContinue (tbl : Tbl) (signed : Bool) (w : List PN) (srt : SortBy) (c :
     | none => []
     | some r => if r.cont.isEmpty then r.blobs else r.blobs ++ followContinue tbl signed w srt c limit fuel r.cont
 
+/-! ## the other sorts: unsorted candidate source, sort afterwards, then cut (query.go:1116-1180) -/
+
+inductive USort where
+  | createdAsc    -- CreatedAsc
+  | blobRefAsc    -- BlobRefAsc
+deriving DecidableEq, Repr
+
+inductive Outcome where
+  | err
+  | panic
+  | ok (bs : List RefKey)
+deriving DecidableEq, Repr
+
+/-- the permanodes matching the base constraint.  The real enumeration order (a Go map) is
+unspecified; it is irrelevant once the list is sorted by a total order. -/
+def matchedU (w : List PN) (c : Cons) : List RefKey :=
+  (w.filter (fun p => baseMatches w c p.ref)).map (·.ref)
+
+def anyTimeOf (w : List PN) (k : RefKey) : Option Int :=
+  (w.find? (fun p => p.ref == k)).bind permanodeAnyTime
+
+/-- `ta.Before(tb)` of the CreatedAsc comparator (query.go:1147); ties are left to sort.Sort in the
+real code – the model breaks them by ref, and the correspondence only visits tie-free worlds -/
+def createdAscLt (w : List PN) (a b : RefKey) : Bool :=
+  match anyTimeOf w a, anyTimeOf w b with
+  | some ta, some tb => decide (ta < tb) || (ta == tb && lessK a b)
+  | _, _ => false
+
+/-- the sort step; `none` = error ("no ctime or modtime found": the comparator is called on every
+element as soon as there are two) -/
+def sortU (w : List PN) : USort → List RefKey → Option (List RefKey)
+  | .blobRefAsc, l => some (sortBy lessK l)
+  | .createdAsc, l =>
+    if 2 ≤ l.length ∧ l.any (fun k => (anyTimeOf w k).isNone) then none
+    else some (sortBy (createdAscLt w) l)
+
+/-- `res.Blobs[lowerBound:upperBound]`, `lowerBound := max(aroundPos-q.Limit/2, 0)`,
+`upperBound := min(lowerBound+q.Limit, len(res.Blobs))` (query.go:1173) -/
+def windowAround {α : Type} (bs : List α) (pos limit : Nat) : List α :=
+  let lower := pos - limit / 2
+  let upper := min (lower + limit) bs.length
+  (bs.take upper).drop lower
+
+def indexOf? {α : Type} (p : α → Bool) : List α → Option Nat
+  | [] => none
+  | x :: xs => if p x then some 0 else (indexOf? p xs).map (· + 1)
+
+/-- `sort.Search(n, pred)` -/
+def searchLoop (pred : Nat → Bool) : Nat → Nat → Nat → Nat
+  | 0, i, _ => i
+  | f + 1, i, j =>
+    if i < j then
+      let h := (i + j) / 2
+      if !pred h then searchLoop pred f (h + 1) j else searchLoop pred f i h
+    else i
+
+/-- the pivot lookup.  `fixed = true`: `slices.IndexFunc(res.Blobs, b.Blob == q.Around)` (now);
+`fixed = false`: the binary search on `Blob.String() >= q.Around.String()` that was there before,
+followed by its check. `none` = panic("q.Around blobRef should be in the results"). -/
+def aroundPos (fixed : Bool) (bs : List RefKey) (piv : Ref) : Option Nat :=
+  if fixed then indexOf? (fun k => k.toRef == piv) bs
+  else
+    let pos := searchLoop (fun h => match bs[h]? with
+        | some k => !ltB (toText k.toRef) (toText piv)
+        | none => true) (bs.length + 1) 0 bs.length
+    match bs[pos]? with
+    | some k => if k.toRef = piv then some pos else none
+    | none => none
+
+/-- Handler.Query for a permanode constraint and a sort whose candidate source is unsorted.  A
+continue token has no effect here (unparsable: logged and ignored; parsable: addContinueConstraint
+adds nothing for these sorts), and no token is ever returned. -/
+def queryUnsorted (fixed : Bool) (w : List PN) (us : USort) (cons : Cons) (limit : Int) (cont : Bytes)
+    (around : Option Ref) : Outcome :=
+  if !cont.isEmpty && around.isSome then .err else
+  let limit := if limit = 0 then 200 else limit
+  let ms := matchedU w cons
+  let bs := match around with
+    | some piv => if ms.any (fun k => k.toRef == piv) then ms else []
+    | none => ms
+  match sortU w us bs with
+  | none => .err
+  | some bs =>
+    if 0 < limit ∧ limit < (bs.length : Int) then
+      match around with
+      | some piv =>
+        match aroundPos fixed bs piv with
+        | none => .panic
+        | some pos => .ok (windowAround bs pos limit.toNat)
+      | none => .ok (bs.take limit.toNat)
+    else .ok bs
+
 end Pk.SearchPage
